@@ -36,6 +36,10 @@ def generate(rng, tier):
     for p in sc.gen_broad(rng, 200 * n):
         p["broad"] = True
         out.append(p)
+    # the scheduler driven by hand (enter, recur*, exit), with .deeds or with a deque the caller keeps
+    for p in sc.gen_manual(rng, 60 * n, thens=("exit",)):
+        p["broad"] = True
+        out.append(p)
     return out
 
 
